@@ -2,6 +2,7 @@
 # seed_regress.sh [lanes] : regression run of the whole seeded corpus against the current rules. For every seeded/<n>/patch.diff:
 # apply to a scratch worktree, run all 20 checks, compare the set of rules that fire with meta.json's caught_by_rules.
 # Prints one line per seeded change: OK (same or more rules) / LOST (a rule that caught it no longer fires) / MISSED (nothing fires).
+exec 9>/tmp/regress.lock; flock 9   # one regression at a time (they share scratch worktrees)
 LANES=${1:-3}
 # the checks run from a snapshot of the code, so that /verif can be edited while the regression runs
 export VCODE=/tmp/vsnap_regress; rm -rf $VCODE; mkdir -p $VCODE
